@@ -21,18 +21,6 @@ fn c15_minus_column() {
 }
 #[kani::proof]
 #[kani::unwind(10)]
-fn c15_eval_arith() {
-    kani::cover!(true);
-    let mut a = leaf("a"); a.field = Some(Field(1));
-    let mut b = leaf("b"); b.val = Some("2");
-    let mut e = leaf("a-b"); e.left = Some(leak(a)); e.right = Some(leak(b)); e.arithmetic_op = Some(ArithmeticOp(9));
-    let mut m = HashMap::new();
-    let r = run(&e, &mut m);
-    let expect = ArithmeticOp(9).calc(&v_field(1), &v_lit(2, false));
-    assert!(r == expect, "OBL C15.eval.arith: a binary node is calc(value of left, value of right) with its own operator, operands in order");
-}
-#[kani::proof]
-#[kani::unwind(10)]
 fn canary_colvalue_must_fail() {
     let mut f = leaf("k1"); f.field = Some(Field(7));
     let mut m = HashMap::new();
